@@ -190,7 +190,7 @@ def compare(res, st, tag, cases, impl, model, f20_entry):
                             what += "; the implementation behaves like the pre-fix model (findings F14/F15 have returned)"
                         viol(what, "input", expected=o_main)
             res.count_case(cid + ast, nontrivial)
-            if n % 2500 == 1:
+            if n % 500 == 1 and len(text) < 1500:
                 res.add_sample({"id": cid, "flags": flags, "vhdl": text.replace("~", "\n"), "impl": i, "oracle": oracle})
             # --- correspondence: implementation vs extracted model
             if dm is None or canon(di) != canon(dm):
